@@ -734,8 +734,9 @@ func genUnfit(t *rapid.T) UnfitCase {
 	n := rapid.SampledFrom([]int{3, 4, 5, 7, 8, 9}).Draw(t, "len")
 	var body []string
 	cpdefExtra := ""
+	soExtra := ""
 	nData := 0
-	kinds := []string{"imm-wide:rset", "imm-wide:mov", "jump-beyond:j", "jump-beyond:jz", "reg-huge", "port-beyond:in", "port-beyond:out", "romsize-small", "romsize-small:data", "romsize-small:hy", "ram-beyond", "romaddr-beyond"}
+	kinds := []string{"imm-wide:rset", "imm-wide:mov", "jump-beyond:j", "jump-beyond:jz", "reg-huge", "port-beyond:in", "port-beyond:out", "romsize-small", "romsize-small:data", "romsize-small:hy", "sodef-invalid", "ram-beyond", "romaddr-beyond"}
 	c.Kind = rapid.SampledFrom(kinds).Draw(t, "kind")
 	var bad string
 	switch c.Kind {
@@ -765,6 +766,11 @@ func genUnfit(t *rapid.T) UnfitCase {
 			o = 2
 		}
 		cpdefExtra = fmt.Sprintf(", romsize:%d", rapid.IntRange(1, o-1).Draw(t, "romsize"))
+		bad = "inc r1"
+	case "sodef-invalid":
+		// a shared object whose constraint no object kind accepts (a queue or a stack without its depth, an
+		// unknown kind), attached to the processor: there is nothing to attach to
+		soExtra = fmt.Sprintf("%%meta sodef so0 constraint:%s\n%%meta soatt so0 cp: cp0, index:0\n", rapid.SampledFrom([]string{"queue", "stack", "nosuchobject:4", "sharedmem"}).Draw(t, "badso"))
 		bad = "inc r1"
 	case "romsize-small:hy":
 		// hybrid processor: the user's ROM is smaller than the ROM program although the RAM is not
@@ -812,6 +818,7 @@ func genUnfit(t *rapid.T) UnfitCase {
 		sb.WriteString("%endsection\n")
 	}
 	fmt.Fprintf(&sb, "%%meta cpdef cp0 romcode: code%s\n", cpdefExtra)
+	sb.WriteString(soExtra)
 	sb.WriteString("%meta ioatt b0 cp: cp0, index:0, type:output\n%meta ioatt b0 cp: bm, index:0, type:output\n")
 	fmt.Fprintf(&sb, "%%meta bmdef global registersize:%d\n", c.Rsize)
 	c.Src = sb.String()
